@@ -22,7 +22,9 @@ type Gen struct {
 var genIdents = []string{"a", "b", "c", "x", "y", "foo", "i", "n", "s", "_z1"}
 var genInts = []string{"0", "1", "2", "42", "007", "0x1F", "0b101", "1_000", "9223372036854775807", "10"}
 var genFloats = []string{"1.5", ".5", "2.", "1e3", "1.5e-3", "0.25", "3.", "1_0.5"}
-var genStrings = []string{`"s"`, `""`, `"a b"`, `"a\"b"`, `"\\"`, `"\n\t"`, "`raw`", "`a\"b`", `"\x07\x08"`, `"\x00"`, `"\xff"`, `"tab\there"`, `"\x7f"`, `"it's"`, `"\x1b[0m"`}
+var genStrings = []string{`"s"`, `""`, `"a b"`, `"a\"b"`, `"\\"`, `"\n\t"`, "`raw`", "`a\"b`", `"\x07\x08"`, `"\x00"`, `"\xff"`, `"tab\there"`, `"\x7f"`, `"it's"`, `"\x1b[0m"`,
+	// raw bytes that are not valid UTF-8 (strconv.Quote prints them as \xNN, which must read back as that one byte), and valid multi-byte text
+	"\"caf\xe9\"", "\"\xff\xfe\"", "`raw\x80`", "\"\xc3\"", "\"h\xc3\xa9llo\"", "\"\xe6\x97\xa5\xe6\x9c\xac\"", "\"\xf0\x9f\x98\x80 \xed\xa0\x80\""}
 
 var BinOps = []string{"+", "-", "*", "/", "%", "==", "!=", "<", "<=", ">", ">=", "<<", ">>", "&&", "||", "&", "|", "^", ":", "=", ":="}
 var PrefixOps = []string{"!", "-", "+", "~", "^", "++", "--"}
